@@ -5,6 +5,10 @@ Specs     : spec/RandomGen.tla     generator re-seeding + reader size bookkeepin
                                    catalog/readers.py:RandomReader, Catalog.from_random;
                                    the random stream is abstracted to TOKENS
                                    <<seed, spawn, glob, sizes drawn since reseed, n>>.
+                                   The seed VALUE is part of the case analysis: Seeds = {0, 1, 2} where 0
+                                   IS the real seed 0 (falsy edge value), 1/2 are mapped to real non-zero
+                                   seeds; NoSeed = -1 is reseed() without argument.  Every history starts
+                                   with the construction Construct(s) ("new", s in InitSeeds).
             spec/RandomWindow.tla  cylindrical equal-area sampling on an exact rational grid
                                    (declinations with rational sines): footprint + area law.
             spec/RandomGenTrace.tla trace validation of recorded operation logs.
@@ -43,6 +47,7 @@ import re  # noqa: E402
 import shutil  # noqa: E402
 import tempfile  # noqa: E402
 import time  # noqa: E402
+import traceback  # noqa: E402
 from pathlib import Path  # noqa: E402
 
 import numpy as np  # noqa: E402
@@ -52,9 +57,14 @@ from harness.yawenv import scratch  # noqa: E402
 
 DEFAULT_CHUNK = 16_777_216
 ALL_OPS = ("call", "frame", "reseed", "reader", "probe", "iter", "abandon", "from_random")
-IDEAL_INVS = ["TypeOK", "ExactSize", "ReseedAtPassStart", "Reproducible", "ReseedRestores", "SeedControlled",
-              "CreateNeverRejected"]
-# deviation -> (scenario, ops, invariants one of which must be violated)
+IDEAL_INVS = ["TypeOK", "ExactSize", "ReseedAtPassStart", "Reproducible", "ReseedRestores", "SeedAsRequested", "SeedControlled",
+              "CreateNeverRejected", "ConstructNeverRejected"]
+NOSEED = -1            # RandomGen!NoSeed: reseed() without argument
+UNKNOWN_SEED = -9      # a real seed that is not in the world's seed map (never matches an event of the spec)
+SPEC_SEEDS = (0, 1, 2)  # RandomGen!Seeds: 0 is the real seed 0, 1 and 2 are mapped to real non-zero seeds per world
+INIT_SEEDS = (0, 1)    # RandomGen!InitSeeds of the enumerated histories: construction with seed 0 and with a non-zero seed
+REF_SEED = 0x5EED5EED  # seed of the unused generator on which a reference is built by reseed(s) if Randoms(seed=s) raises
+# deviation label -> (scenario, ops, invariants one of which must be violated[, dict(dev=deviation name, init_seeds=...)])
 DEVIATIONS = {
     "ModuloLastChunk": (dict(kind="box", N=4, C=2, k=0, p=0), ALL_OPS, {"ExactSize"}),
     "StatefulSeeder": (dict(kind="box", N=3, C=2, k=0, p=0), ("reader", "iter", "from_random", "probe"),
@@ -64,6 +74,10 @@ DEVIATIONS = {
     "NoPosResetAtIter": (dict(kind="box", N=3, C=2, k=0, p=0), ALL_OPS, {"ExactSize"}),
     "ProbeBoundedByRecords": (dict(kind="box", N=12, C=5, k=1, p=0), ALL_OPS, {"CreateNeverRejected"}),
     "GlobalPixelRng": (dict(kind="healpix", N=3, C=2, k=0, p=0), ALL_OPS, {"Reproducible", "SeedControlled", "ReseedRestores"}),
+    # seed 0 treated as "no seed given": silently (reseed(0) keeps the old seed) and loudly (constructor raises)
+    "FalsySeedIsNoSeed": (dict(kind="box", N=3, C=2, k=0, p=0), ALL_OPS, {"ReseedRestores", "SeedAsRequested"}, dict(init_seeds=(1,))),
+    "FalsySeedIsNoSeed@constructor": (dict(kind="box", N=3, C=2, k=0, p=0), ALL_OPS, {"ConstructNeverRejected"},
+                                      dict(dev="FalsySeedIsNoSeed", init_seeds=(0,))),
 }
 # design variants of the rule for probes larger than the catalog (selected by detect_probe_rule)
 PROBE_RULES = ("ProbeBoundedByRecords", "ProbeClampedToRecords", "DefaultProbeClampedToRecords")
@@ -101,25 +115,26 @@ def tla_set(xs) -> str:
     return "{" + ", ".join(str(x) if not isinstance(x, str) else f'"{x}"' for x in xs) + "}"
 
 
-def gen_constants(scenarios, *, dev, ops, max_ops, call_sizes, probe_sizes, frame_sizes=(3,), seeds=(1, 2)):
+def gen_constants(scenarios, *, dev, ops, max_ops, call_sizes, probe_sizes, frame_sizes=(3,), seeds=SPEC_SEEDS, init_seeds=INIT_SEEDS):
     ks = sorted({s["k"] for s in scenarios if s["k"] > 0} | {1})
     defprobe = "(" + " @@ ".join(f"{k} :> {def_probe(k)}" for k in ks) + ")"
     mod = MC_TEMPLATE % (", ".join(sc_tla(s) for s in scenarios), defprobe)
-    consts = dict(Scenarios="<- ScenariosDef", DefProbe="<- DefProbeDef", Seeds=tla_set(seeds), CallSizes=tla_set(call_sizes), FrameSizes=tla_set(frame_sizes),
+    consts = dict(Scenarios="<- ScenariosDef", DefProbe="<- DefProbeDef", Seeds=tla_set(seeds), InitSeeds=tla_set(init_seeds), CallSizes=tla_set(call_sizes), FrameSizes=tla_set(frame_sizes),
                   ProbeSizes=tla_set(probe_sizes), Ops=tla_set(ops), MaxOps=max_ops, DefaultChunk=DEFAULT_CHUNK,
                   Deviations=tla_set(sorted(dev)))
     return mod, consts
 
 
 def gen_job(label, scenarios, *, dev=(), ops=ALL_OPS, max_ops, call_sizes=(0, 3), probe_sizes=(2, 7), frame_sizes=(3,),
-            invariants=IDEAL_INVS, print_hist=False, liveness=True, coverage=False) -> dict:
+            invariants=IDEAL_INVS, print_hist=False, liveness=True, coverage=False, init_seeds=INIT_SEEDS) -> dict:
     """A TLC run of RandomGen, described; executed by run_jobs (several at a time)."""
     mod, consts = gen_constants(scenarios, dev=dev, ops=ops, max_ops=max_ops, call_sizes=call_sizes, probe_sizes=probe_sizes,
-                                frame_sizes=frame_sizes)
+                                frame_sizes=frame_sizes, init_seeds=init_seeds)
     cfg = tlc.make_cfg(constants=consts, invariants=list(invariants) + (["PrintJson"] if print_hist else []),
                        properties=["Termination"] if liveness else [], deadlock=True)
     return dict(label=label, cfg=cfg, mod=mod, coverage=coverage,
-                info=dict(scenarios=len(scenarios), MaxOps=max_ops, Deviations=sorted(dev), Ops=list(ops)))
+                info=dict(scenarios=len(scenarios), MaxOps=max_ops, Deviations=sorted(dev), Ops=list(ops), Seeds=list(SPEC_SEEDS),
+                          InitSeeds=list(init_seeds)))
 
 
 def run_jobs(ctx, jobs: list, parallel: int = 4) -> list:
@@ -201,7 +216,8 @@ def count_nodes(node: Node) -> int:
 # the real world: generator configurations and property predicates
 # ---------------------------------------------------------------------------
 
-SEED_PAIRS = [(12345, 0), (0, 2**32 - 1), (2**63, 7), (2**64 + 11, 1), (4711, 2024), (1, 2), (987654321, 2**31)]
+# real seeds of the spec's abstract non-zero seeds 1 and 2 (the spec's seed 0 is the real seed 0 in every world)
+SEED_PAIRS = [(12345, 2**32 - 1), (1, 2**32), (2**63, 7), (2**64 + 11, 1), (4711, 2024), (1, 2), (987654321, 2**31)]
 # (ra_min, ra_max, dec_min, dec_max) in degrees, class label
 BOX_WINDOWS = [
     ((0.0, 40.0, -20.0, 20.0), "generic"),
@@ -249,7 +265,7 @@ class World:
     mapping of the spec's abstract seeds to real seeds."""
 
     def __init__(self, yaw, root: Path, idx: int, *, kind="box", window=None, wclass="", attrs="wz", nsrc=7,
-                 seedpair=(12345, 0), healpix=None) -> None:
+                 seedpair=(12345, 2**32 - 1), healpix=None) -> None:
         self.yaw = yaw
         self.root = root
         self.idx = idx
@@ -257,8 +273,12 @@ class World:
         self.window = window
         self.wclass = wclass
         self.attrs = attrs
-        self.seedmap = {1: seedpair[0], 2: seedpair[1]}
+        self.seedmap = {0: 0, 1: seedpair[0], 2: seedpair[1]}
         self.seedinv = {v: k for k, v in self.seedmap.items()}
+        assert len(self.seedinv) == 3 and REF_SEED not in self.seedinv
+        self.pending = Findings()   # verdicts found while building references (moved to the caller's sink by exec_entry)
+        self.ctor_broken: dict = {}  # real seed -> exception of Randoms(..., seed=real)
+        self.ref_route: dict = {}   # real seed -> how the reference generator was obtained
         srng = np.random.default_rng(1000 + idx)
         # distinct values; row i pairs weight i with redshift perm[i]: a (w, z) pair identifies its row
         self.w_src = (1.0 + np.arange(nsrc) + srng.uniform(0.0, 0.5, nsrc)) if "w" in attrs else None
@@ -301,15 +321,56 @@ class World:
                                 unmasked=sorted(self.hp_unmasked))
         return d
 
-    def new_gen(self, real_seed: int):
+    def new_gen(self, real_seed: int, keep_log: bool = False):
+        """The public constructor (may raise: callers go through lib() / fresh())."""
         kw = dict(weights=self.w_src, redshifts=self.z_src, seed=real_seed)
         if self.kind == "box":
             g = self.cls(*self.window, **kw)
         else:
             hp = self.healpix
             g = self.cls(np.asarray(hp["values"], dtype=float), nested=hp["nested"], is_mask=hp["is_mask"], **kw)
-        take_log(g)
+        if not keep_log:
+            take_log(g)
         return g
+
+    def ctor_text(self, real_seed) -> str:
+        if self.kind == "box":
+            return f"BoxRandoms({', '.join(map(str, self.window))}, seed={real_seed})"
+        return f"HealPixRandoms(<{len(self.healpix['values'])} pixel values>, nested={self.healpix['nested']}, seed={real_seed})"
+
+    def ctor_failed(self, real_seed, exc, sink) -> None:
+        """Randoms(..., seed=real_seed) raised on a valid input: a violation (the constructor is not tried
+        again for references of this world; every request of such a reference reports it again)."""
+        self.ctor_broken[real_seed] = exc
+        sink.violation(f"C16|{self.clsname}.__init__|{seed_class(real_seed)}|raises_{type(exc).__name__}",
+                       dict(world=self.describe(), seed=real_seed, reproducer=self.ctor_text(real_seed), error=repr(exc),
+                            traceback=tb_text(exc)))
+
+    def fresh(self, seed_abs: int):
+        """A brand-new generator with the (abstract) seed for a reference, or None.  If the constructor
+        raises for this seed (a violation of its own), the reference is a generator that was given the
+        seed by the other public route: reseed(seed) on an unused generator of an unrelated seed."""
+        real = self.seedmap[seed_abs]
+        if real in self.ctor_broken:
+            self.ctor_failed(real, self.ctor_broken[real], self.pending)
+        else:
+            try:
+                g = self.new_gen(real)
+                self.ref_route[real] = "constructor"
+                return g
+            except Exception as exc:  # noqa: BLE001 - reported as a violation
+                self.ctor_failed(real, exc, self.pending)
+        try:
+            g = self.new_gen(REF_SEED)
+            g.reseed(real)
+            take_log(g)
+            self.ref_route[real] = f"constructor raises: reseed({real}) on an unused generator of seed {REF_SEED}"
+            return g
+        except Exception as exc:  # noqa: BLE001 - reported as a violation
+            self.pending.violation(f"C16|{self.clsname}.reseed|{seed_class(real)}|raises_{type(exc).__name__}",
+                                   dict(world=self.describe(), seed=real, error=repr(exc), traceback=tb_text(exc),
+                                        note="while building the reference generator"))
+            return None
 
     def centers(self, n: int = 1):
         """n patch centres inside the footprint (one centre: no patch can stay empty)."""
@@ -322,7 +383,7 @@ class World:
                 lon, lat = fakehealpy.pix2ang(self.hp_nside, np.array([pix[0], pix[-1]]), nest=True, lonlat=True)
                 pts = [[lon[0], lat[0]], [lon[1], lat[1]]]
             self._centers = np.deg2rad(np.array(pts))
-        return self.yaw.AngularCoordinates(self._centers[:n])
+        return lib(self.yaw.AngularCoordinates, self._centers[:n])
 
     # -- tokens ---------------------------------------------------------
     def realisable(self, tok) -> bool:
@@ -330,17 +391,39 @@ class World:
 
     def realise(self, tok):
         """The array a brand-new generator with the token's seed returns for the
-        token's call (after direct calls of the sizes in ``used``)."""
+        token's call (after direct calls of the sizes in ``used``); None if the library
+        cannot produce the reference (reported as a violation of its own)."""
         seed, spawn, glob, used, n = tok
         key = (seed, tuple(used), n)
         if key not in self._cache:
-            g = self.new_gen(self.seedmap[seed])
-            for m in used:
-                g(m)
-            self._cache[key] = g(n)
             if len(self._cache) > 20000:
                 self._cache.clear()
+            g = self.fresh(seed)
+            ref = None
+            if g is not None:
+                try:
+                    for m in used:
+                        g(m)
+                    ref = g(n)
+                except Exception as exc:  # noqa: BLE001 - reported as a violation
+                    self.pending.violation(f"C16|{self.clsname}.__call__|reference,{seed_class(self.seedmap[seed])}|raises_{type(exc).__name__}",
+                                           dict(world=self.describe(), token=list(tok), error=repr(exc), traceback=tb_text(exc)))
+            if ref is None:
+                return None
+            self._cache[key] = ref
         return self._cache[key]
+
+    def differs(self, arr, tok) -> bool:
+        """arr is NOT what a brand-new generator with the token's seed returns (False if no reference)."""
+        ref = self.realise(tok)
+        return ref is not None and not same(arr, ref)
+
+    def seed_sfx(self, tok) -> str:
+        """input class suffix of a reproducibility finding: the edge-value seed 0 is a class of its own"""
+        return ",seed=0" if self.seedmap.get(tok[0]) == 0 else ""
+
+    def ref_note(self, tok) -> str:
+        return self.ref_route.get(self.seedmap.get(tok[0]), "constructor")
 
     # -- property predicates on real output -------------------------------
     def footprint_bad(self, ra, dec) -> str | None:
@@ -400,6 +483,14 @@ class World:
         return self.footprint_bad(arr["ra"], arr["dec"]) or self.attrs_bad(names, lambda n: arr[n])
 
 
+def seed_class(real_seed) -> str:
+    return "seed=None" if real_seed is None else "seed=0" if real_seed == 0 else "seed=nonzero"
+
+
+def tb_text(exc) -> str:
+    return "".join(traceback.format_exception(type(exc), exc, exc.__traceback__)[-4:])
+
+
 def same(a, b) -> bool:
     return a.dtype == b.dtype and a.shape == b.shape and a.tobytes() == b.tobytes()
 
@@ -453,8 +544,8 @@ def empty_patch_rejection(exc) -> bool:
 class State:
     """The real objects a history acts on."""
 
-    def __init__(self, gen) -> None:
-        self.gen = gen
+    def __init__(self, gen=None) -> None:
+        self.gen = gen  # None until the history's "new" operation constructed it
         self.reader = None
         self.it = None
         self.used = False  # has the generator been used since it was created?
@@ -482,7 +573,7 @@ def log_events(world: World, log) -> list:
     out = []
     for kind, arg, _ in log:
         if kind == "reseed":
-            out.append(("reseed", 0 if arg is None else world.seedinv.get(arg, -1)))
+            out.append(("reseed", NOSEED if arg is None else world.seedinv.get(arg, UNKNOWN_SEED)))
         else:
             out.append(("call", arg))
     return out
@@ -496,6 +587,16 @@ def exec_entry(world: World, st: State, e: dict, sc: dict, F: Findings, path_ops
     """Execute the operation of history entry ``e`` on the real objects, compare with
     the expectation of the spec.  Returns False if the real state diverged from the
     model (the subtree below is then skipped)."""
+    try:
+        return _exec_entry(world, st, e, sc, F, path_ops, counters)
+    finally:  # verdicts found while building reference generators
+        for it in world.pending.items:
+            it[2].setdefault("history", list(path_ops))
+        F.items.extend(world.pending.items)
+        world.pending.items = []
+
+
+def _exec_entry(world: World, st: State, e: dict, sc: dict, F: Findings, path_ops: list, counters: dict) -> bool:
     from yaw.catalog.readers import RandomReader
 
     op, a, out = e["op"], e["a"], e["out"]
@@ -516,9 +617,10 @@ def exec_entry(world: World, st: State, e: dict, sc: dict, F: Findings, path_ops
         if bad:
             F.violation(f"C16|{ep}|{world.key_class(bad)}|{bad}", dict(base_detail, n=len(arr)))
         if tok is not None and world.realisable(tok) and len(arr) == tok[4]:
-            if not same(arr, world.realise(tok)):
-                F.violation(f"C16|{ep}|{hist_cls}|not_reproducible",
-                            dict(base_detail, token=list(tok), note="differs from a brand-new generator with the same seed"))
+            if world.differs(arr, tok):
+                F.violation(f"C16|{ep}|{hist_cls}{world.seed_sfx(tok)}|not_reproducible",
+                            dict(base_detail, token=list(tok), real_seed=world.seedmap[tok[0]], reference=world.ref_note(tok),
+                                 note="differs from a brand-new generator with the same seed"))
         return ok
 
     def check_events(log) -> bool:
@@ -529,6 +631,20 @@ def exec_entry(world: World, st: State, e: dict, sc: dict, F: Findings, path_ops
         return True
 
     try:
+        if op == "new":
+            real = world.seedmap[a]
+            counters[f"new({seed_class(real)})"] = counters.get(f"new({seed_class(real)})", 0) + 1
+            try:
+                st.gen = lib(world.new_gen, real, keep_log=True)
+            except LibError as err:
+                # the constructor refuses a valid seed: nothing of this history can be executed
+                world.ctor_failed(real, err.exc, F)
+                return False
+            if out != "ok":
+                F.drift(f"C16|{cls}.__init__|outcome_differs_from_spec", dict(base_detail, got="ok"))
+                return False
+            return check_events(take_log(st.gen))
+
         if op in ("call", "frame"):
             tok = e["res"][0]
             if op == "call":
@@ -537,16 +653,17 @@ def exec_entry(world: World, st: State, e: dict, sc: dict, F: Findings, path_ops
             else:
                 df = lib(st.gen.generate_dataframe, a)
                 ep = f"{cls}.generate_dataframe"
-                ref = world.realise(tok)
+                ref = world.realise(tok) if world.realisable(tok) else None
                 # back to a structured array in radian for the shared predicates
                 arr = np.empty(len(df), dtype=[(c, "f8") for c in df.columns])
                 for c in df.columns:
                     arr[c] = df[c].to_numpy()
-                if len(df) == len(ref) and world.realisable(tok):
+                if ref is not None and len(df) == len(ref):
                     exp_deg = {c: (np.rad2deg(ref[c]) if c in ("ra", "dec") else ref[c]) for c in ref.dtype.names}
                     if list(df.columns) != list(ref.dtype.names) or any(
                             np.asarray(df[c].to_numpy(), dtype="f8").tobytes() != np.asarray(exp_deg[c], dtype="f8").tobytes() for c in ref.dtype.names):
-                        F.violation(f"C16|{ep}|{hist_cls}|not_reproducible", dict(base_detail, token=list(tok)))
+                        F.violation(f"C16|{ep}|{hist_cls}{world.seed_sfx(tok)}|not_reproducible",
+                                    dict(base_detail, token=list(tok), real_seed=world.seedmap[tok[0]], reference=world.ref_note(tok)))
                 arr["ra"] = np.deg2rad(arr["ra"])
                 arr["dec"] = np.deg2rad(arr["dec"])
                 tok = None  # compared above (degrees)
@@ -555,14 +672,16 @@ def exec_entry(world: World, st: State, e: dict, sc: dict, F: Findings, path_ops
             # code, but only draws right after a (re)seed are claimed by the property
             prop_tok = tok if (tok is not None and len(tok[3]) == 0) else None
             okk = check_output(arr, prop_tok, ep, a, "direct")
-            if tok is not None and prop_tok is None and world.realisable(tok) and len(arr) == tok[4] and not same(arr, world.realise(tok)):
+            if tok is not None and prop_tok is None and world.realisable(tok) and len(arr) == tok[4] and world.differs(arr, tok):
                 F.drift(f"C16|{ep}|stream_position_differs_from_spec", dict(base_detail, token=list(tok)))
                 okk = False
             st.used = True
             return check_events(log) and okk
 
         if op == "reseed":
-            lib(st.gen.reseed, world.seedmap[a]) if a else lib(st.gen.reseed)
+            real = None if a == NOSEED else world.seedmap[a]
+            counters[f"reseed({seed_class(real)})"] = counters.get(f"reseed({seed_class(real)})", 0) + 1
+            lib(st.gen.reseed) if real is None else lib(st.gen.reseed, real)
             st.used = True
             return check_events(take_log(st.gen))
 
@@ -706,20 +825,26 @@ def exec_entry(world: World, st: State, e: dict, sc: dict, F: Findings, path_ops
                 F.drift(f"C16|{ep}|chunking_differs_from_spec",
                         dict(base_detail, calls=[x[1] for x in calls], expected=[t[4] for t in exp_toks]))
                 return False
-            if all(world.realisable(t) for t in toks):
-                exp = [world.realise(t) for t in toks]
+            if toks and world.seedmap.get(toks[0][0]) == 0:
+                counters["from_random(seed=0)"] = counters.get("from_random(seed=0)", 0) + 1
+            exp = [world.realise(t) for t in toks] if all(world.realisable(t) for t in toks) else [None]
+            if all(x is not None for x in exp):
                 exp_all = np.concatenate(exp) if exp else recs[:0]
                 if len(exp_all) != len(recs) or (len(recs) and (exp_all.dtype != recs.dtype or
                                                                  sorted_rows(exp_all).tobytes() != sorted_rows(recs).tobytes())):
-                    F.violation(f"C16|{ep}|{hist_cls}|not_reproducible",
-                                dict(base_detail, note="catalog records differ from those of a brand-new generator with the same seed"))
+                    F.violation(f"C16|{ep}|{hist_cls}{world.seed_sfx(toks[0]) if toks else ''}|not_reproducible",
+                                dict(base_detail, real_seed=world.seedmap[toks[0][0]] if toks else None,
+                                     reference=world.ref_note(toks[0]) if toks else None,
+                                     note="catalog records differ from those of a brand-new generator with the same seed"))
             # generator outputs seen during the call: probe + chunks, in the order of the spec
             ok = check_events(log)
             if ok:
                 for (_, n, arr), tok in zip(calls, exp_toks):
-                    if world.realisable(tok) and len(arr) == tok[4] and not same(arr, world.realise(tok)):
+                    if world.realisable(tok) and len(arr) == tok[4] and world.differs(arr, tok):
                         which = "probe" if tok in e["pr"] and tok not in toks else "chunk"
-                        F.violation(f"C16|{ep}|{hist_cls}|not_reproducible", dict(base_detail, which=which, token=list(tok)))
+                        F.violation(f"C16|{ep}|{hist_cls}{world.seed_sfx(tok)}|not_reproducible",
+                                    dict(base_detail, which=which, token=list(tok), real_seed=world.seedmap[tok[0]],
+                                         reference=world.ref_note(tok)))
                         break
                 chunk_out = [x[2] for x in calls[len(e["pr"]):]]
                 got_all = np.concatenate(chunk_out) if chunk_out else recs[:0]
@@ -727,27 +852,32 @@ def exec_entry(world: World, st: State, e: dict, sc: dict, F: Findings, path_ops
                     F.violation(f"C16|{ep}|{scl}|records_not_the_generated_points", dict(base_detail))
             return ok
     except LibError as err:  # an unexpected exception of a public call on a valid input
-        take_log(st.gen)
-        F.violation(f"C16|{op_entry_point(op, cls)}|{size_class(sc['N'], sc['C']) if op in ('pass', 'from_random', 'reader') else 'any'}"
-                    f"|raises_{type(err.exc).__name__}", dict(base_detail, error=repr(err.exc)))
+        if st.gen is not None:
+            take_log(st.gen)
+        icls = (size_class(sc['N'], sc['C']) if op in ('pass', 'from_random', 'reader')
+                else seed_class(None if a == NOSEED else world.seedmap.get(a)) if op in ("new", "reseed") else 'any')
+        F.violation(f"C16|{op_entry_point(op, cls)}|{icls}|raises_{type(err.exc).__name__}",
+                    dict(base_detail, error=repr(err.exc), traceback=tb_text(err.exc)))
         return False
     raise AssertionError(f"unknown op {op}")
 
 
 def op_entry_point(op, cls) -> str:
-    return {"call": f"{cls}.__call__", "frame": f"{cls}.generate_dataframe", "reseed": f"{cls}.reseed",
+    return {"new": f"{cls}.__init__", "call": f"{cls}.__call__", "frame": f"{cls}.generate_dataframe", "reseed": f"{cls}.reseed",
             "reader": f"RandomReader[{cls}].__init__", "probe": f"RandomReader[{cls}].get_probe",
             "pass": f"RandomReader[{cls}].pass", "from_random": f"Catalog.from_random[{cls}]"}[op]
 
 
 def op_text(e: dict, sc: dict) -> str:
     op, a = e["op"], e["a"]
+    if op == "new":
+        return f"gen=Randoms(seed={'0' if a == 0 else 'seed%d' % a})"
     if op == "call":
         return f"gen({a})"
     if op == "frame":
         return f"gen.generate_dataframe({a})"
     if op == "reseed":
-        return f"gen.reseed({'seed%d' % a if a else ''})"
+        return f"gen.reseed({'' if a == NOSEED else '0' if a == 0 else 'seed%d' % a})"
     if op == "reader":
         return f"rd=RandomReader(gen,{sc['N']},{sc['C'] or None})"
     if op == "probe":
@@ -775,7 +905,7 @@ def walk(ctx, world: World, sc: dict, node: Node, st: State, path_ops: list, pat
         for it in F.items:  # recipe for ./check C16 --replay
             it[2]["replay"] = dict(world=world.idx, scenario=sc, entries=[compact(e) for e in ents2])
         F.flush(ctx)
-        nontrivial = child.entry["op"] in ("pass", "from_random", "probe") and len(path_ops) > 0
+        nontrivial = child.entry["op"] in ("pass", "from_random", "probe") and len(path_ops) > 1  # path_ops[0] is the construction
         ctx.evaluated(1, (world.idx, sc_key(sc), tuple(ops2)) if nontrivial else None)
         if not child.children:
             ctx.validated(1)
@@ -794,9 +924,12 @@ def replay_file(ctx, yaw, root: Path) -> None:
     worlds = make_worlds(yaw, root, int(doc.get("seed", 0)))
     world = [w for ws in worlds.values() for w in ws if w.idx == recipe["world"]][0]
     sc = recipe["scenario"]
-    st = State(world.new_gen(world.seedmap[1]))
+    st = State()
     ops: list = []
-    for e in recipe["entries"]:
+    entries = list(recipe["entries"])
+    if entries and entries[0]["op"] != "new":  # recipe written before the construction became an operation of the model
+        entries.insert(0, dict(op="new", a=1, out="ok", pr=[], res=[], ev=[["reseed", 1]]))
+    for e in entries:
         e = norm_entry(e)
         ops.append(op_text(e, sc))
         F = Findings()
@@ -881,9 +1014,19 @@ def size_scenarios(quick: bool) -> list:
     return uniq
 
 
-def detect_probe_rule(yaw, root: Path) -> tuple:
+def detect_probe_rule(ctx, yaw, root: Path) -> tuple:
     """Which rule for probes larger than the catalog does the tree implement?  (two micro probes of
     the real code; selects the matching design variant of the spec for the replays)"""
+    try:
+        return _detect_probe_rule(yaw, root)
+    except Exception as exc:  # noqa: BLE001 - valid calls (non-zero seed, N=5/12): an exception other than the probe refusal
+        ctx.violation(f"C16|RandomReader[BoxRandoms].get_probe|probe_rule_detection|raises_{type(exc).__name__}",
+                      dict(calls="RandomReader(BoxRandoms(0,10,0,10,seed=1),5,2).get_probe(8); Catalog.from_random(path, "
+                                 "BoxRandoms(0,40,-20,20,seed=1), 12, patch_num=1, chunksize=5)", error=repr(exc), traceback=tb_text(exc)))
+        return ()
+
+
+def _detect_probe_rule(yaw, root: Path) -> tuple:
     from yaw.catalog.readers import RandomReader
     from yaw.randoms import BoxRandoms
 
@@ -955,9 +1098,10 @@ def model_check(ctx, observed: tuple) -> dict:
         add(("obs_size", 0), gen_job(f"RandomGen with {'+'.join(observed)} (as implemented), size sweep", ssc, dev=observed, max_ops=2,
                                      ops=size_ops, probe_sizes=(3, 10), invariants=invs_obs, print_hist=True))
     # 3. every deviation yields its counterexample
-    for name, (sc, ops, expect) in DEVIATIONS.items():
-        add(("dev", name), gen_job(f"RandomGen deviation {name}", [sc], dev=(name,), ops=ops, max_ops=3, liveness=False,
-                                   call_sizes=(2, 3)))
+    for name, (sc, ops, expect, *more) in DEVIATIONS.items():
+        opt = more[0] if more else {}
+        add(("dev", name), gen_job(f"RandomGen deviation {name}", [sc], dev=(opt.get("dev", name),), ops=ops, max_ops=3, liveness=False,
+                                   call_sizes=(2, 3), init_seeds=opt.get("init_seeds", (1,))))
     results = dict(zip(roles, run_jobs(ctx, jobs)))
     cover: dict = {}
     for (role, i), res in results.items():
@@ -966,12 +1110,32 @@ def model_check(ctx, observed: tuple) -> dict:
         if role == "ideal_hist":
             for act, (_, total) in res.coverage.items():
                 cover[act] = cover.get(act, 0) + total
-    for act in ("DrawOp", "Reseed", "NewReader", "Probe", "IterStart", "NextChunk", "StopPass", "Abandon", "FRStart",
+    for act in ("Construct", "DrawOp", "Reseed", "NewReader", "Probe", "IterStart", "NextChunk", "StopPass", "Abandon", "FRStart",
                 "FRCenters", "FRIterStep", "FRNext", "FRStop"):
         ctx.require(cover.get(act, 0) > 0, f"RandomGen action {act} never taken (vacuous)")
     pick = "obs" if observed else "ideal"
+    # the seed VALUE is explored: construction with every seed of InitSeeds (incl. 0), an explicit reseed(s) for every
+    # s of Seeds (incl. 0) and reseed(); after a generator was used with ANOTHER seed; from_random on a seed-0 generator
+    seen_new, seen_reseed, reseed0_after_use, fr_seed0 = set(), set(), 0, 0
+    for i in range(len(plan)):
+        for _, hist in printed_hist(results[(f"{pick}_hist", i)]):
+            seen_new.add(hist[0]["a"])
+            for j, e in enumerate(hist):
+                if e["op"] == "reseed":
+                    seen_reseed.add(e["a"])
+                    if e["a"] == 0 and requested_seed(hist[:j]) != 0 and any(x["res"] or x["pr"] for x in hist[:j]):
+                        reseed0_after_use += 1
+                if e["op"] == "from_random" and e["res"] and e["res"][0][0] == 0:
+                    fr_seed0 += 1
+    ctx.require(seen_new == set(INIT_SEEDS) and 0 in seen_new, f"constructions explored by TLC: seeds {sorted(seen_new)}, expected {INIT_SEEDS}")
+    ctx.require(seen_reseed == set(SPEC_SEEDS) | {NOSEED}, f"reseed arguments explored by TLC: {sorted(seen_reseed)}")
+    ctx.require(reseed0_after_use > 0, "no TLC history with reseed(0) on a generator that was used with another seed")
+    ctx.require(fr_seed0 > 0, "no TLC history with Catalog.from_random on a generator of seed 0")
+    ctx.extra["seed_domain"] = dict(Seeds=list(SPEC_SEEDS), NoSeed=NOSEED, InitSeeds=list(INIT_SEEDS), constructions=sorted(seen_new),
+                                    reseed_arguments=sorted(seen_reseed), histories_reseed0_after_use_with_other_seed=reseed0_after_use,
+                                    histories_from_random_on_seed0=fr_seed0)
     cex = {}
-    for name, (sc, ops, expect) in DEVIATIONS.items():
+    for name, (sc, ops, expect, *_more) in DEVIATIONS.items():
         res = results[("dev", name)]
         ctx.require(not res.ok and res.error_kind == "invariant" and res.error_name in expect,
                     f"deviation {name} yields no counterexample (stale model): {res.error_kind} {res.error_name}")
@@ -990,13 +1154,25 @@ def py_hist(hist) -> list:
     return [norm_entry(e) for e in hist]
 
 
-def ideal_tokens(e: dict, sc: dict) -> dict:
-    """The entry as the IDEAL design would have produced it (Reproducible as a rewrite):
-    used for the replay of deviation counterexamples."""
+def requested_seed(entries) -> int:
+    """RandomGen!RequestedSeed: the seed the user gave last (constructor or reseed(s))."""
+    s = 1
+    for e in entries:
+        if e["op"] in ("new", "reseed") and e["a"] != NOSEED:
+            s = e["a"]
+    return s
+
+
+def ideal_tokens(e: dict, sc: dict, seed: int) -> dict:
+    """The entry as the IDEAL design would have produced it (Reproducible / SeedAsRequested /
+    ConstructNeverRejected as a rewrite; ``seed`` = the seed requested last): used for the replay
+    of deviation counterexamples."""
     c = sc["C"] or DEFAULT_CHUNK
     e = dict(e)
-    e["res"] = [(t[0], 0, 0, tuple([c] * j) if e["op"] in ("pass", "from_random") else t[3], t[4]) for j, t in enumerate(e["res"])]
-    e["pr"] = [(t[0], 0, 0, (), t[4]) for t in e["pr"]]
+    e["res"] = [(seed, 0, 0, tuple([c] * j) if e["op"] in ("pass", "from_random") else t[3], t[4]) for j, t in enumerate(e["res"])]
+    e["pr"] = [(seed, 0, 0, (), t[4]) for t in e["pr"]]
+    if e["op"] == "new":
+        e["out"] = "ok"
     return e
 
 
@@ -1008,19 +1184,20 @@ def replay_counterexamples(ctx, worlds, cex) -> dict:
     for name, c in cex.items():
         sc = c["scenario"]
         world = worlds[sc["kind"]][0]
-        st = State(world.new_gen(world.seedmap[1]))
+        st = State()
         F = Findings()
         ops = []
         done = []
         hist = py_hist(c["hist"])
         # let an open operation run to its end
-        for e in hist:
-            e2 = ideal_tokens(e, sc)
+        for i, e in enumerate(hist):
+            seed = requested_seed(hist[:i])
+            e2 = ideal_tokens(e, sc, seed)
             if e2["out"] in ("running", "open"):
                 e2["out"] = "ok" if e2["op"] == "from_random" else "complete"
                 n, cc = sc["N"], sc["C"] or DEFAULT_CHUNK
                 sizes = [cc] * (n // cc) + ([n % cc] if n % cc else [])
-                e2["res"] = [(e2["res"][0][0] if e2["res"] else 1, 0, 0, tuple([cc] * j), s) for j, s in enumerate(sizes)]
+                e2["res"] = [(seed, 0, 0, tuple([cc] * j), s) for j, s in enumerate(sizes)]
             ops.append(op_text(e2, sc))
             done.append(e2)
             if not exec_entry(world, st, e2, sc, F, list(ops), {}):
@@ -1048,8 +1225,7 @@ def replay_histories(ctx, worlds, results, label, *, world_pick, deadline=None) 
         ctx.require(bool(tries), f"TLC printed no history for {label}")
         for key, (sc, root) in sorted(tries.items()):
             for world in world_pick(nsc, sc):
-                st = State(world.new_gen(world.seedmap[1]))
-                walk(ctx, world, sc, root, st, [], [], counters, budget)
+                walk(ctx, world, sc, root, State(), [], [], counters, budget)  # the root's children are the constructions
             nsc += 1
             counters["tree_nodes"] = counters.get("tree_nodes", 0) + count_nodes(root)
     counters["scenarios"] = nsc
@@ -1065,7 +1241,7 @@ def binding_selfcheck(ctx, worlds, results) -> None:
     world = worlds["box"][0]
 
     def replay(entries, sc):
-        st = State(world.new_gen(world.seedmap[1]))
+        st = State()
         F = Findings()
         ok = True
         for e in entries:
@@ -1083,11 +1259,24 @@ def binding_selfcheck(ctx, worlds, results) -> None:
             tried += 1
             ok, F = replay(hist[: i + 1], sc)
             if not ok or F.items:
-                continue  # not a clean baseline
+                # not a clean baseline; what the UNCORRUPTED replay shows is evidence from the real code
+                F.items = [it for it in F.items if it[0] == "violation"]
+                F.flush(ctx)
+                continue
             t = e["res"][1]
             bad = dict(e, res=(e["res"][0], (t[0], t[1], t[2], (t[3][0] + 1,), t[4])) + tuple(e["res"][2:]))
             _, F = replay(hist[:i] + [bad], sc)
             done["tok"] = any(kind == "violation" and k.endswith("not_reproducible") for kind, k, _ in F.items)
+            # the seed VALUE is bound: the same history with the tokens of another seed (0 <-> non-zero) is rejected
+            other = 1 if t[0] == 0 else 0
+            bad = dict(e, res=tuple((other,) + tuple(x[1:]) for x in e["res"]))
+            _, F = replay(hist[:i] + [bad], sc)
+            done["seed"] = any(kind == "violation" and k.endswith("not_reproducible") for kind, k, _ in F.items)
+            broken = [it for it in F.items if it[0] == "violation" and "|raises_" in it[1]]
+            if broken:  # the library cannot build the reference of the other seed: evidence of its own, nothing to demonstrate on
+                F.items = broken
+                F.flush(ctx)
+                done["seed"] = "reference unavailable"
             t = e["res"][-1]
             bad = dict(e, res=tuple(e["res"][:-1]) + ((t[0], t[1], t[2], t[3], t[4] + 1),),
                        ev=tuple(e["ev"][:-1]) + (("call", t[4] + 1),))
@@ -1098,7 +1287,10 @@ def binding_selfcheck(ctx, worlds, results) -> None:
         return
     ctx.require(done.get("tok") is True, "binding demonstration failed: a corrupted token was accepted by the driver")
     ctx.require(done.get("size") is True, "binding demonstration failed: a corrupted chunk size was accepted by the driver")
-    ctx.extra["binding_demonstration"] = dict(corrupted_token_rejected=True, corrupted_chunk_size_rejected=True)
+    ctx.require(done.get("seed") in (True, "reference unavailable"),
+                "binding demonstration failed: tokens of another seed (0 <-> non-zero) were accepted by the driver")
+    ctx.extra["binding_demonstration"] = dict(corrupted_token_rejected=True, corrupted_chunk_size_rejected=True,
+                                              tokens_of_another_seed_rejected=done["seed"])
 
 
 # ---------------------------------------------------------------------------
@@ -1139,8 +1331,18 @@ def window_check(ctx, yaw, seed: int) -> None:
         """returns the list of (cell, observed, expected, sigma) that fail"""
         nonlocal worst, ncells
         w = (float(win["ra1"]), float(win["ra2"]), float(win["d1"]), float(win["d2"]))
-        g = BoxRandoms(*w, seed=gen_seed)
-        pts = g(M)
+        try:
+            g = BoxRandoms(*w, seed=gen_seed)
+        except Exception as exc:  # noqa: BLE001 - a valid window and seed
+            ctx.violation(f"C16|BoxRandoms.__init__|{seed_class(gen_seed)}|raises_{type(exc).__name__}",
+                          dict(reproducer=f"BoxRandoms{w + (gen_seed,)}", window_deg=w, seed=gen_seed, error=repr(exc), traceback=tb_text(exc)))
+            return None
+        try:
+            pts = g(M)
+        except Exception as exc:  # noqa: BLE001
+            ctx.violation(f"C16|BoxRandoms.__call__|{coarse_window_class(w, 'area')}|raises_{type(exc).__name__}",
+                          dict(window_deg=w, seed=gen_seed, n=M, error=repr(exc), traceback=tb_text(exc)))
+            return None
         ra, dec = np.rad2deg(pts["ra"]), np.rad2deg(pts["dec"])
         if selfcheck_law == "dec":  # a deliberately wrong sampler (uniform in dec) for the binding demonstration
             dec = np.random.default_rng(gen_seed).uniform(w[2], w[3], M)
@@ -1168,12 +1370,15 @@ def window_check(ctx, yaw, seed: int) -> None:
         return fails
 
     for i, (win, cells) in enumerate(sorted(windows, key=lambda x: sorted(x[0].items()))):
-        fails = test_window(win, sorted(cells), 1000 * seed + i)
+        # generator seeds 0, 1, 2, ... (seed 0 is always among them), shifted per run seed for the other windows
+        fails = test_window(win, sorted(cells), i if i < 2 else 1000 * seed + i)
+        if fails is None:
+            continue  # the library raised (reported)
         ctx.evaluated(1, ("window", tuple(sorted(win.items()))))
         if fails:
             w = (win["ra1"], win["ra2"], win["d1"], win["d2"])
             ctx.violation(f"C16|BoxRandoms.__call__|{coarse_window_class(w, 'area')}|area_fraction_off_by_more_than_6_sigma",
-                          dict(window_deg=w, window_class=window_class(w), seed=1000 * seed + i, failing_cells=fails[:4]))
+                          dict(window_deg=w, window_class=window_class(w), seed=i if i < 2 else 1000 * seed + i, failing_cells=fails[:4]))
         if i == 0:
             ctx.sample(dict(window_deg=win, cells=[dict(cell=list(c), fraction=[n, d]) for c, n, d in sorted(cells)][:4],
                             points=M, compared="empirical cell fractions vs TLC's exact rationals (6 sigma), all points inside"))
@@ -1182,7 +1387,7 @@ def window_check(ctx, yaw, seed: int) -> None:
     ctx.require(len(cells) == 1, "counterexample window of UniformInDec not among the ideal windows")
     real_fails = test_window(cex_win, sorted(cells[0]), 77 + seed)
     wrong_fails = test_window(cex_win, sorted(cells[0]), 77 + seed, selfcheck_law="dec")
-    ctx.require(bool(wrong_fails), "binding demonstration failed: a uniform-in-dec sampler passes the area test")
+    ctx.require(wrong_fails is None or bool(wrong_fails), "binding demonstration failed: a uniform-in-dec sampler passes the area test")
     if real_fails:
         ctx.violation(f"C16|BoxRandoms.__call__|{coarse_window_class((cex_win['ra1'], cex_win['ra2'], cex_win['d1'], cex_win['d2']), 'area')}"
                       "|area_fraction_off_by_more_than_6_sigma", dict(window_deg=cex_win, failing_cells=real_fails[:4]))
@@ -1190,7 +1395,7 @@ def window_check(ctx, yaw, seed: int) -> None:
     ctx.extra["area_law"] = dict(windows=len(windows), cells=ncells, points_per_window=M, threshold_sigma=nsig,
                                  worst_deviation_sigma=round(worst, 2), deviation_UniformInDec=dict(
                                      tlc_counterexample_window=cex_win, real_code_shows=bool(real_fails),
-                                     wrong_sampler_rejected=bool(wrong_fails)))
+                                     wrong_sampler_rejected=bool(wrong_fails) if wrong_fails is not None else "library raised"))
 
 
 def coarse_window_class(w, bad: str) -> str:
@@ -1235,10 +1440,20 @@ def record_traces(ctx, worlds, rng, ntraces: int, big: bool) -> list:
     for t in range(ntraces):
         sc = rng.choice(large if (big and t % 4 == 3) else small)
         world = worlds["box"][rng.randrange(len(worlds["box"]))]
-        st = State(world.new_gen(world.seedmap[1]))
+        st = State()
         ops, arrays = [], []
         nops = 0
         length = rng.randint(4, 7 if sc["N"] > 50_000 else 12)
+        # the construction: seed 0 in the first traces, then any seed of the domain
+        a0 = 0 if t < 2 else rng.choice(SPEC_SEEDS)
+        try:
+            st.gen = lib(world.new_gen, world.seedmap[a0], keep_log=True)
+        except LibError as err:
+            world.ctor_failed(world.seedmap[a0], err.exc, ctx)
+            out.append(dict(world=world, sc=sc, nops=0, ops=[], arrays=[], ctor_failed=a0))
+            continue
+        ops.append(dict(op="new", a=a0, out="ok", prn=[], resn=[], ev=[list(x) for x in log_events(world, take_log(st.gen))]))
+        arrays.append([])
         while nops < length:
             choices = ["call", "frame", "reseed", "reader", "from_random"]
             if st.reader is not None:
@@ -1254,8 +1469,8 @@ def record_traces(ctx, worlds, rng, ntraces: int, big: bool) -> list:
                     rec["resn"] = [len(x[2]) for x in log if x[0] == "call"]
                     arrs = [x[2] for x in log if x[0] == "call"]
                 elif op == "reseed":
-                    rec["a"] = rng.choice([0, 1, 2])
-                    lib(st.gen.reseed, world.seedmap[rec["a"]]) if rec["a"] else lib(st.gen.reseed)
+                    rec["a"] = rng.choice([NOSEED, 0, 0, 1, 2])
+                    lib(st.gen.reseed, world.seedmap[rec["a"]]) if rec["a"] != NOSEED else lib(st.gen.reseed)
                     log = take_log(st.gen)
                 elif op == "reader":
                     rec["a"] = sc["N"]
@@ -1306,7 +1521,7 @@ def record_traces(ctx, worlds, rng, ntraces: int, big: bool) -> list:
                     shutil.rmtree(world.root / f"tr{world.idx}", ignore_errors=True)
                     try:
                         cat = lib(world.yaw.Catalog.from_random, world.root / f"tr{world.idx}", st.gen, sc["N"], allow=(ValueError,), **kwargs)
-                        nrec = int(sum(cat.get_num_records()))
+                        nrec = int(sum(lib(cat.get_num_records)))
                     except ValueError as exc:
                         if empty_patch_rejection(exc) and sc["k"] > 1:
                             take_log(st.gen)
@@ -1324,8 +1539,10 @@ def record_traces(ctx, worlds, rng, ntraces: int, big: bool) -> list:
                     rec["nrec"] = nrec
                 rec["ev"] = [list(x) for x in log_events(world, log)]
             except LibError as err:
-                ctx.violation(f"C16|{op_entry_point(op, world.clsname)}|{size_class(sc['N'], sc['C'])}|raises_{type(err.exc).__name__}",
-                              dict(world=world.describe(), scenario=sc, ops=[o["op"] for o in ops] + [op], error=repr(err.exc)))
+                icls = seed_class(None if rec["a"] == NOSEED else world.seedmap[rec["a"]]) if op == "reseed" else size_class(sc['N'], sc['C'])
+                ctx.violation(f"C16|{op_entry_point(op, world.clsname)}|{icls}|raises_{type(err.exc).__name__}",
+                              dict(world=world.describe(), scenario=sc, ops=[o["op"] for o in ops] + [op], error=repr(err.exc),
+                                   traceback=tb_text(err.exc)))
                 break
             nops += 1
             ops.append(rec)
@@ -1351,7 +1568,7 @@ def validate_traces(ctx, traces, observed, label) -> list:
                 ops = [dict(op=o["op"], a=o["a"], out=o["out"], prn=o["prn"], resn=o["resn"], ev=o["ev"]) for o in t["ops"]]
                 f.write(json.dumps(dict(sc=t["sc"], nops=t["nops"], ops=ops)) + "\n")
         invs = [i for i in invariants_for(observed) if i != "TypeOK"]
-        consts = dict(Scenarios="{}", DefProbe="<- DefProbeDef", Seeds="{1, 2}", CallSizes=tla_set(sizes), FrameSizes=tla_set(sizes), ProbeSizes=tla_set(psizes),
+        consts = dict(Scenarios="{}", DefProbe="<- DefProbeDef", Seeds=tla_set(SPEC_SEEDS), InitSeeds=tla_set(SPEC_SEEDS), CallSizes=tla_set(sizes), FrameSizes=tla_set(sizes), ProbeSizes=tla_set(psizes),
                       Ops=tla_set(ALL_OPS), MaxOps=1000, DefaultChunk=DEFAULT_CHUNK, Deviations=tla_set(sorted(observed)))
         cfg = tlc.make_cfg(spec="TSpec", constants=consts, invariants=["Progress"] + invs, constraints=["Consistent"],
                            postcondition="Post", deadlock=False)
@@ -1380,7 +1597,9 @@ def validate_traces(ctx, traces, observed, label) -> list:
 def trace_validation(ctx, worlds, rng, observed) -> None:
     quick = ctx.quick
     traces = record_traces(ctx, worlds, rng, 12 if quick else 80, big=not quick)
-    traces = [t for t in traces if t["ops"]]
+    ctx.require(any(t["ops"] and t["ops"][0]["a"] == 0 for t in traces) or any(t.get("ctor_failed") == 0 for t in traces),
+                "no recorded trace of a generator constructed with seed 0")
+    traces = [t for t in traces if len(t["ops"]) > 1]
     # binding demonstration: a corrupted copy of the first trace with a pass must be rejected
     bad = None
     for t in traces:
@@ -1440,15 +1659,17 @@ def trace_validation(ctx, worlds, rng, observed) -> None:
                 if tok[4] > 200_000 and not chunked:
                     continue
                 claimed = chunked or len(tok[3]) == 0
-                if not same(arr, world.realise(tok)):
+                if world.differs(arr, tok):
                     ep = op_entry_point(e["op"], world.clsname)
                     if claimed:
-                        ctx.violation(f"C16|{ep}|history={'used' if used else 'fresh'}|not_reproducible",
-                                      dict(world=world.describe(), scenario=sc, token=list(tok), ops=[x["op"] for x in t["ops"]]))
+                        ctx.violation(f"C16|{ep}|history={'used' if used else 'fresh'}{world.seed_sfx(tok)}|not_reproducible",
+                                      dict(world=world.describe(), scenario=sc, token=list(tok), real_seed=world.seedmap[tok[0]],
+                                           reference=world.ref_note(tok), ops=[(x["op"], x["a"]) for x in t["ops"]]))
                     else:
                         ctx.drift(f"C16|{ep}|stream_position_differs_from_spec", dict(scenario=sc, token=list(tok)))
                     break
-            used = True
+            used = used or e["op"] != "new"
+        world.pending.flush(ctx)
         world._cache.clear()
     ctx.extra["trace_validation"] = dict(traces=len(traces), accepted=len(traces) - len(rejected), rejected=rejected[:5],
                                          corrupted_trace_rejected=True,
@@ -1467,19 +1688,24 @@ def pool_runs(ctx, worlds, rng) -> None:
         world = worlds["box"][(3 * i) % len(worlds["box"])]
         N, C = rng.choice([(1000, 300), (999, 333), (2000, 1000), (2001, 1000)])
         recs = {}
+        real_seed = world.seedmap[i % 2]  # seed 0 and a non-zero seed
         try:
             for W in (1, 2 if i % 2 == 0 else 3):
-                g = world.new_gen(world.seedmap[1])
+                try:
+                    g = lib(world.new_gen, real_seed)
+                except LibError as err:
+                    world.ctor_failed(real_seed, err.exc, ctx)
+                    raise
                 shutil.rmtree(world.root / f"pool{W}", ignore_errors=True)
                 cat = lib(world.yaw.Catalog.from_random, world.root / f"pool{W}", g, N, patch_centers=world.centers(2), chunksize=C,
                           max_workers=W, overwrite=True)
-                rec = [p.load_data() for p in cat.values()]
-                recs[W] = (int(sum(cat.get_num_records())), sorted_rows(np.concatenate(rec)))
+                rec = [lib(p.load_data) for p in cat.values()]
+                recs[W] = (int(sum(lib(cat.get_num_records))), sorted_rows(np.concatenate(rec)))
         except LibError as err:
-            if empty_patch_rejection(err.exc):
-                continue  # documented refusal of a patch centre without data
+            if empty_patch_rejection(err.exc) or real_seed in world.ctor_broken:
+                continue  # documented refusal of a patch centre without data / constructor failure (reported above)
             ctx.violation(f"C16|Catalog.from_random[BoxRandoms]|max_workers>1|raises_{type(err.exc).__name__}",
-                          dict(world=world.describe(), N=N, chunksize=C, error=repr(err.exc)))
+                          dict(world=world.describe(), N=N, chunksize=C, seed=real_seed, error=repr(err.exc), traceback=tb_text(err.exc)))
             continue
         ctx.evaluated(2, ("pool", world.idx, N, C))
         (n1, r1), (n2, r2) = recs.values()
@@ -1531,7 +1757,7 @@ def run(ctx) -> None:
         return
 
     with scratch("c16p_") as root:
-        observed = detect_probe_rule(yaw, root)
+        observed = detect_probe_rule(ctx, yaw, root)
     ctx.extra["probe_rule_of_the_tree"] = list(observed) or ["unbounded (ideal)"]
     mc = model_check(ctx, observed)
 
